@@ -8,6 +8,9 @@ def run(ctx):
     ctx.mc("EioHeartbeat", "EioHeartbeat_ok2.cfg")
     ctx.mc("EioHeartbeat", "EioHeartbeat_dev_norearm.cfg", expect="violates:LiveNotKilled")
     ctx.mc("EioHeartbeat", "EioHeartbeat_dev_pongignored.cfg", expect="violates:LiveNotKilled")
+    # heartbeats through the upgrade: a PING parked in the old poll queue must survive the server's swap
+    ctx.mc("EioSession", "EioSession_ok.cfg")
+    ctx.mc("EioSession", "EioSession_dev_resendmsgsonly.cfg", expect="violates:HeartbeatNotLost")
     out, res = ctx.go_test("c07", "^TestC14$")
     if res is None:
         return
@@ -19,7 +22,7 @@ def run(ctx):
 
 
 META = {
-    "text": "TLC checks EioHeartbeat.tla, a timed model of the server's ping loop and the client's watchdog with the link black-holed at every tick in both / one direction: a live peer is never closed, closes happen only on a dead link, each side closes within PI+PT of the last heartbeat it received, a fully dead link is closed on both sides within PI+PT; two deviations (watchdog not re-armed, pongs ignored) must violate. Real sessions behind a byte-swallowing proxy are black-holed after a ping, after a pong, early in the interval, during the upgrade, in one direction only, on polling and websocket; live sessions idle for >= 5 periods with traffic at random phases. Hook records with microsecond times are validated by EioSessionTrace.tla (reason ping timeout on both sides, in time; never on an undisturbed session).",
+    "text": "TLC checks EioHeartbeat.tla, a timed model of the server's ping loop and the client's watchdog with the link black-holed at every tick in both / one direction: a live peer is never closed, closes happen only on a dead link, each side closes within PI+PT of the last heartbeat it received, a fully dead link is closed on both sides within PI+PT; two deviations (watchdog not re-armed, pongs ignored) must violate. EioSession.tla carries the heartbeats through the transport upgrade (a PING parked in the old poll queue when the server swaps): every PING sent is handled and answered (HeartbeatNotLost); the deviation that re-sends MESSAGE packets only must violate. Real sessions behind a byte-swallowing proxy are black-holed after a ping, after a pong, early in the interval, during the upgrade, in one direction only, on polling and websocket; live sessions idle for >= 5 periods with traffic at random phases. Hook records with microsecond times are validated by EioSessionTrace.tla (reason ping timeout on both sides, in time; never on an undisturbed session).",
     "note": "Trusted: the proxy's black-hole switch; hook times; 700 ms slack.",
     "technique": "TLA+/TLC timed model checking + trace validation with logged times behind a fault proxy",
     "design_ref": "DESIGN.md 4.7, 5 (C14)",
